@@ -669,9 +669,12 @@ func c01Header(r *Run, x *codecX) {
 					found = true
 				}
 			}
+			if ok && fullHeaderRead(info, call) {
+				found = true
+			}
 			return true
 		})
-		r.check(found, "r7", "recv header read", recv.Decl.Pos(), "io.ReadAtLeast(r, hdr[:], 7)", "the header is not read with io.ReadAtLeast(..., headerLength)")
+		r.check(found, "r7", "recv header read", recv.Decl.Pos(), "io.ReadAtLeast(r, hdr[:], 7)", "the header is not read with io.ReadAtLeast(..., headerLength) or io.ReadFull into the 7-byte array")
 	}
 }
 
@@ -1112,4 +1115,25 @@ func c01Primitives(r *Run, x *codecX) {
 		}
 	}
 	r.floor("r2", "buffer primitives", n, 28)
+}
+
+// fullHeaderRead: io.ReadAtLeast(r, hdr[:], 7) or io.ReadFull(r, hdr[:]) with hdr a 7-byte
+// array: the call returns without error only when all seven bytes have arrived.
+func fullHeaderRead(info *types.Info, call *ast.CallExpr) bool {
+	k := calleeKey(info, call)
+	switch {
+	case k == "io.ReadAtLeast" && len(call.Args) == 3:
+		if v, ok := constInt(info, call.Args[2]); !ok || v != 7 {
+			return false
+		}
+	case k == "io.ReadFull" && len(call.Args) == 2:
+	default:
+		return false
+	}
+	if sl, isSl := unparen(call.Args[1]).(*ast.SliceExpr); isSl && sl.Low == nil && sl.High == nil {
+		if at, isArr := info.TypeOf(sl.X).Underlying().(*types.Array); isArr && at.Len() == 7 {
+			return true
+		}
+	}
+	return false
 }
